@@ -2,6 +2,7 @@ package schedule
 
 import (
 	"container/heap"
+	"math"
 	"sort"
 
 	"github.com/projecteru2/core/resource/plugins/cpumem/types"
@@ -191,7 +192,8 @@ func (h *host) getCPUPlans(cpuRequest float64) []types.CPUMap {
 	if !(cpuRequest > 0) || cpuRequest > float64(len(h.fullCores)+len(h.fragmentCores)) {
 		return []types.CPUMap{}
 	}
-	piecesRequest := int(cpuRequest * float64(h.shareBase))
+	// to the nearest piece: 0.29 * 100 is 28.999999999999996 in floating point
+	piecesRequest := int(math.Round(cpuRequest * float64(h.shareBase)))
 	if piecesRequest <= 0 {
 		return []types.CPUMap{}
 	}
